@@ -259,6 +259,38 @@ theorem parse_print_den_total (e : Expr) (hb : built Expr.ltE e = true) :
     ∃ e', PyEval.parseY0 Expr.ltE (Print.expr e) = .ok e' ∧
       ∀ (env : Env) (σ' σ : Y0.Val), den env σ' e' σ = den env σ' e σ := parse_print_den Expr.ltE e hb
 
+/-! ### reconciliation with the `expr` family's model of the constructors (Y0.Model.Dsl, C10/C11/C13)
+
+`PyEval` is self-contained and parametric in the order; instantiated at `Expr.ltE` its `Product.safe` IS the one of
+Y0.Model.Dsl (both sort with the same stable insertion sort), so "the order of the code under test" above is the order
+C11's `key_total` speaks about. -/
+
+theorem sortBy_eq_sortStable {α} (lt : α → α → Bool) (l : List α) : sortBy lt l = sortStable lt l := by
+  have hins : ∀ (x : α) (l : List α), insertBy lt x l = insertStable lt x l := by
+    intro x l
+    induction l with
+    | nil => rfl
+    | cons y ys ih => simp [insertBy, insertStable, ih]
+  induction l with
+  | nil => rfl
+  | cons x xs ih =>
+    show insertBy lt x (sortBy lt xs) = insertStable lt x (sortStable lt xs)
+    rw [ih, hins]
+
+theorem productSafe_agrees (es : List Expr) : PyEval.productSafe Expr.ltE es = Y0.productSafe es := by
+  have h1 : (fun e => !PyEval.isOne e) = (fun e : Expr => !e.isOne) := by
+    funext e; cases e <;> rfl
+  have h2 : PyEval.isZero = Expr.isZero := by
+    funext e; cases e <;> rfl
+  unfold PyEval.productSafe Y0.productSafe
+  simp only [h1, h2]
+  cases List.filter (fun e => !e.isOne) es with
+  | nil => rfl
+  | cons a r =>
+    cases r with
+    | nil => rfl
+    | cons b r' => simp only [sortBy_eq_sortStable]
+
 /-! non-vacuity of section 5: the front-door estimand written with the public DSL,
 `Sum[Z](P(Z | X) * Sum[X](P(Y | (X, Z)) * P(X)))`, a counterfactual query `P[X](Y @ +Z | W) / Q[A, B](C)` and a
 construction outside `namesOnce` (`P(A, A)`) -/
